@@ -138,9 +138,6 @@ class SyncInterpreter(BaseInterpreter[TContext, TEvent]):
         #: and the thread running that drain.
         self._self_raised: int = 0
         self._drain_thread: Optional[int] = None
-        #: Invoking state and activation for each machine-`src` invocation,
-        #: keyed by invoke id, so its completion can be stamped.
-        self._invoke_scopes: Dict[str, Any] = {}
         self._after_threads: Dict[str, threading.Thread] = {}
         self._after_events: Dict[str, threading.Event] = {}
         #: Cancellation flags for pending delayed sends, released by `stop()`.
@@ -1176,12 +1173,17 @@ class SyncInterpreter(BaseInterpreter[TContext, TEvent]):
         action_def: ActionDefinition,
         event: Event,
         on_complete: Optional[str] = None,
+        scope: Optional[Any] = None,
     ) -> None:
         """Spawns a child state machine actor in blocking or non-blocking mode.
 
         Args:
             action_def: The action definition for spawning the actor.
             event: The event that triggered the spawn action.
+            scope: `(invoking state id, activation)` of the invocation that
+                spawns this actor, used to stamp its completion event. Captured
+                per spawn: a later activation of the same invoke must not
+                lend its stamp to an earlier child's late result.
             on_complete: When set, the invoke id to report completion under.
                 Reaching a top-level final state queues
                 `done.invoke.<id>` so an `invoke` of a child MACHINE fires
@@ -1249,7 +1251,7 @@ class SyncInterpreter(BaseInterpreter[TContext, TEvent]):
         if blocking:
             child.start()
             if on_complete is not None:
-                self._queue_actor_done(child, on_complete)
+                self._queue_actor_done(child, on_complete, scope)
             return
 
         # --- Non-Blocking Execution Path (via a background thread) ---
@@ -1270,7 +1272,7 @@ class SyncInterpreter(BaseInterpreter[TContext, TEvent]):
             finally:
                 # 🧹 Ensure cleanup happens whether the child finishes or is stopped.
                 if on_complete is not None:
-                    self._queue_actor_done(child, on_complete)
+                    self._queue_actor_done(child, on_complete, scope)
                 child.stop()
                 # 🧹 Only drop the registration if it is still OURS. After
                 #    `stopChild` a new actor may already have been spawned
@@ -1286,7 +1288,10 @@ class SyncInterpreter(BaseInterpreter[TContext, TEvent]):
         ).start()
 
     def _queue_actor_done(
-        self, child: "SyncInterpreter", invoke_id: str
+        self,
+        child: "SyncInterpreter",
+        invoke_id: str,
+        scope: Optional[Any] = None,
     ) -> None:
         """Queues `done.invoke.<id>` for a completed child machine.
 
@@ -1314,7 +1319,6 @@ class SyncInterpreter(BaseInterpreter[TContext, TEvent]):
             data=child.context,
             src=invoke_id,
         )
-        scope = self._invoke_scopes.get(invoke_id)
         if scope is not None:
             self._scope_event(done_event, scope[0], scope[1])
         logger.info("🏁 Child actor '%s' completed; firing onDone.", child.id)
@@ -1458,10 +1462,6 @@ class SyncInterpreter(BaseInterpreter[TContext, TEvent]):
                 invocation.src,
                 invocation.id,
             )
-            self._invoke_scopes[invocation.id] = (
-                owner_id,
-                self._activation.get(owner_id, 0),
-            )
             self._spawn_actor(
                 ActionDefinition(
                     {
@@ -1471,6 +1471,7 @@ class SyncInterpreter(BaseInterpreter[TContext, TEvent]):
                 ),
                 Event(type=f"invoke.{invocation.id}"),
                 on_complete=invocation.id,
+                scope=(owner_id, self._activation.get(owner_id, 0)),
             )
             return
 
